@@ -6,6 +6,7 @@ import traceback
 from . import gen, configs
 from .harness import do_count, expected_domain_error, BudgetExceeded
 
+MAX_PARTIAL_EVENTS = 1500
 DEFAULT_WEIGHTS = dict(G1=3, G2=3, G3=2, G4=2, G5=1, G6=2, G7=2, G9=1, G10=2)
 
 
@@ -66,7 +67,15 @@ def usable(ctx, case, partial_ok=True):
     ctx.evaluated()
     if run.timed_out:
         ctx.count('not_explored:budget:' + arith_tag(case.opts))
-        return False
+        # the history recorded before the budget ran out is real: judge a capped prefix of it
+        if not (partial_ok and run.phase == 'count' and run.E is not None and run.snaps):
+            return False
+        run.events = run.events[:MAX_PARTIAL_EVENTS]
+        ctx.count('partial_histories_judged')
+        ctx.count('partial_histories_after_budget_overrun')
+        ctx.count('counts_judged')
+        ctx.count('snapshots', len(run.snaps))
+        return True
     if run.error is not None:
         # an exception is outside every trace property (C01 owns it), but the history recorded
         # before it was raised is real and is judged like any other
